@@ -28,12 +28,13 @@ var properties = map[string]*Property{
 				"(*Comp).Lss", "(*Comp).Gtr", "(*Comp).Leq", "(*Comp).Geq", "(*Comp).Eql", "(*Comp).Neq",
 				"(*Comp).UnaryMinus", "(*Comp).UnaryXor", "(*Comp).UnaryNot",
 				"(*Env).Up", "(*Bind).intExpr", "(*Bind).expr", "(*Symbol).intExpr", "(*Symbol).expr",
+				"(*Comp).mulPow2", "(*Comp).quoPow2", "(*Comp).remPow2", "(*Comp).exprZero", "integerLen",
 			}},
 		},
 		NotCovered: []string{
 			"composition over whole expression trees (structural induction on the program: a paper argument, DESIGN.md 4.6)",
-			"shortcut returns of the compile functions that do not create a closure (x+0 -> x, x*0 -> 0, power-of-two rewrites mulPow2/quoPow2/remPow2, exprZero): see known findings / DESIGN.md",
 			"shifts (Shl, Shr, Expr.AsUint64), && and || (Land, Lor), interface and nil comparisons (eqlneqMisc, eqlneqNilR), BinaryExpr1/UnaryExpr dispatch, EvalConst",
+			"isLiteralNumber (assumed contract), constants of negative zero (assumed absent: go/constant holds exact values)",
 			"run-time panics: a closure panics exactly where the Go operator it applies panics (closures use the Go operators themselves); compile-time rejection conditions are not under contract",
 		},
 	},
